@@ -580,15 +580,15 @@ impl<T: BitWrite> PackedWrite for T {
             && upper_bound_unwrapped >= LENGTH_64K
         {
             // 11.9.4.2
-            if lower_bound == upper_bound {
-                Ok(None)
-            } else if value < lower_bound_unwrapped {
+            if value < lower_bound_unwrapped || value > upper_bound_unwrapped {
                 Err(ErrorKind::ValueNotInRange(
                     value as i64,
                     lower_bound_unwrapped as i64,
                     upper_bound_unwrapped as i64,
                 )
                 .into())
+            } else if lower_bound == upper_bound {
+                Ok(None)
             } else {
                 // the lower bound is already accounted for by write_non_negative_binary_integer
                 self.write_non_negative_binary_integer(lower_bound, upper_bound, value)?;
